@@ -359,7 +359,11 @@ def run(ctx):
             elif t[0] == "m" and t[1] == "get" and t[3] == s_t and t[2] == ("coll", frozenset({("elem", ("out", "computeEntrySet", 4))})):
                 cls = "history-default"
                 ok = under(en, site, lambda g, p: p is True and g == ("m", "has", t[2], s_t))
-                why = "guards: %s" % [(show(g), p) for g, p, _ in guard_terms(en, site)]
+                # ... and under nothing else: the default content runs whenever this microstep used the history default
+                # (the table is per microstep; no further condition such as "first entry" belongs here)
+                extra = [(show(g), p) for g, p, _ in guard_terms(en, site) if not (p is True and g == ("m", "has", t[2], s_t))]
+                ok = ok and not extra
+                why = "guards: %s%s" % ([(show(g), p) for g, p, _ in guard_terms(en, site)], ("; unexpected extra condition(s): %s" % extra) if extra else "")
             classes.append(cls)
             ctx.ob("R06.4", site_key(en, "content #%d: %s" % (i, cls)), ok, line_of(site), why)
         ctx.ob("R06.4", site_key(en, "order onentry, initial, history-default"), classes == ["onentry", "initial", "history-default"], en.where,
